@@ -1,5 +1,6 @@
 import RuxModel.Drv.Common
 import RuxModel.Drv.Lru
+import RuxModel.Drv.Reg
 /-
   Line-protocol driver: `driver <engine>` reads op lines on stdin and answers one line per op.
   Lines starting with `#` are echoed (they separate cases and carry comments).
@@ -21,7 +22,8 @@ partial def loop (e : Engine) (hin hout : IO.FS.Stream) (s : e.σ) : IO Unit := 
     loop e hin hout s'
 
 def engines : List (String × Engine) := [
-  ("lru", lruEngine)
+  ("lru", lruEngine),
+  ("reg", regEngine)
 ]
 
 def main (args : List String) : IO UInt32 := do
